@@ -110,6 +110,7 @@ class DemoStorage(ConflictResolvingStorage):
             if close_changes_on_close is None:
                 close_changes_on_close = False
         else:
+            self._temporary_changes = False
             if ZODB.interfaces.IBlobStorage.providedBy(changes):
                 zope.interface.alsoProvides(self, ZODB.interfaces.IBlobStorage)
             if close_changes_on_close is None:
@@ -311,15 +312,26 @@ class DemoStorage(ConflictResolvingStorage):
 
                 self._next_oid = random.randint(1, 1 << 62)
 
+    def _base_is_empty(self):
+        # len() alone does not tell: a demo storage used as base only
+        # counts its own changes.
+        if len(self.base):
+            return False
+        try:
+            load_current(self.base, ZODB.utils.z64)
+        except ZODB.POSException.POSKeyError:
+            return True
+        return False
+
     def pack(self, t, referencesf, gc=None):
         # Collecting garbage in the changes alone is only sound while the
         # base is empty: otherwise changed objects may be reachable only
         # through the base, and may refer to objects that live only there.
         if gc is None:
-            if self._temporary_changes:
-                return self.changes.pack(
-                    t, referencesf, gc=not len(self.base))
-        elif self._temporary_changes and not (gc and len(self.base)):
+            if self._temporary_changes and self._base_is_empty():
+                return self.changes.pack(t, referencesf)
+        elif self._temporary_changes and not (
+                gc and not self._base_is_empty()):
             return self.changes.pack(t, referencesf, gc=gc)
         elif gc:
             raise TypeError(
@@ -330,7 +342,7 @@ class DemoStorage(ConflictResolvingStorage):
             self.changes.pack(t, referencesf, gc=False)
         except TypeError as v:
             if 'gc' in str(v):
-                pass  # The gc arg isn't supported. Don't pack
+                return  # The gc arg isn't supported. Don't pack
             raise
 
     def pop(self):
